@@ -72,7 +72,7 @@ def main():
         dest = VERIF / "seeded" / seed_id
         dest.mkdir(parents=True, exist_ok=True)
         for name in ("patch.diff", "demo.py", "notes.md"):
-            if (src / name).exists():
+            if (src / name).exists() and (src / name).resolve() != (dest / name).resolve():
                 shutil.copy(src / name, dest / name)
         meta["needs"] = (src / "notes.md").read_text()[:1500] if (src / "notes.md").exists() else ""
         meta["ran"] = [f"git apply patch.diff in scratch worktree {wt}", "repo pytest suite", "demo.py clean/mutated",
